@@ -288,7 +288,7 @@ def main():
     pts = enum.extra.pop("_points", [])
     if enum.extra.get("harness_errors"):
         chk.merge(enum)
-        return chk.finish()
+        return chk.finish(run_case)
     items = []
     npoints = 0
     for s, p, q in pts:
@@ -313,7 +313,7 @@ def main():
         "the single point excluded from the leak oracle is the cleanup's own os.unlink call",
         "worker code runs in-process under the modelled pool (so its call events are injectable); a real MultiPool(2) conformance slice covers process workers",
     ]
-    return chk.finish()
+    return chk.finish(run_case)
 
 
 def replay(doc):
